@@ -439,10 +439,7 @@ func c02(c *Ctx) {
 			}
 			name := core.FuncName(m)
 			if mname == "GetBlockHeaderByHash" {
-				hashP := m.Params[1]
-				g := bytesEqualFact(func(v ssa.Value) bool { return derivesFromCall(v, gethHeaderHash, nil) }, func(v ssa.Value) bool { return derivesFromParam(v, hashP) })
-				w := core.CutReach(core.CutSpec{Fn: m, Cut: func(b *ssa.BasicBlock, i int) bool { return g(core.EdgeFacts(b, i)) }, Target: core.SuccessTarget(m, nil)})
-				r.Check(w == nil, "R3.oracle-binding", name, p.Pos(m.Pos()), "the looked-up header is returned only if its hash equals the requested hash", "the oracle returns whatever header the network look-up produced without comparing its hash with the requested one: a lying peer chooses the header that bodies, receipts and state proofs are checked against: "+p.PathString(w))
+				oracleHeaderBinding(c, "R3.oracle-binding", m)
 			} else {
 				// summaries must be verified against a trusted root before being trusted
 				ver := func(fs []core.Fact) bool {
@@ -590,4 +587,14 @@ func lostErrorRule(c *Ctx, rule, what string, roots []*ssa.Function, pkgs []stri
 	}
 	r.Pass(rule, what, "-", fmt.Sprintf("%d functions checked: no bound error value is overwritten or dropped before being examined on a path that can succeed", n))
 	r.Count("functions_checked_for_lost_errors", len(fns))
+}
+
+// oracleHeaderBinding: a header-by-hash oracle method that asks the network returns a header
+// with nil error only after header.Hash() compared equal to the requested hash.
+func oracleHeaderBinding(c *Ctx, rule string, m *ssa.Function) {
+	p, r := c.P, c.R
+	hashP := m.Params[1]
+	g := bytesEqualFact(func(v ssa.Value) bool { return derivesFromCall(v, gethHeaderHash, nil) }, func(v ssa.Value) bool { return derivesFromParam(v, hashP) })
+	w := core.CutReach(core.CutSpec{Fn: m, Cut: func(b *ssa.BasicBlock, i int) bool { return g(core.EdgeFacts(b, i)) }, Target: core.SuccessTarget(m, nil)})
+	r.Check(w == nil, rule, core.FuncName(m), p.Pos(m.Pos()), "the looked-up header is returned only if its hash equals the requested hash", "the oracle can return a header whose hash was not compared with the requested one (a lying peer, or a cache filled before the comparison, chooses the header that bodies, receipts and state proofs are checked against): "+p.PathString(w))
 }
